@@ -256,7 +256,12 @@ def run(ctx, f, rep):
                 sink = ev.args[0]
                 on_entry = pathq.mentions_call(sink, lambda y: short(y[1]) in ("begin_async", "next_async") and not y[1].endswith("}")) is not None
                 item = ev.args[1]
-                is_msg = item[0] == "agg" and item[3] == "Message" and pathq.mentions_call(item, lambda y: y[1] == A["builder"]) is not None
+                # (the builder's result, as a call - or, when the builder is private and was looked through, as the value that call
+                # event carries)
+                built = [e2.result for e2 in p.events[:i] if e2.kind == "call" and e2.name == A["builder"] and e2.extra == "inlined" and e2.result is not None]
+                is_msg = item[0] == "agg" and item[3] == "Message" and (
+                    pathq.mentions_call(item, lambda y: y[1] == A["builder"]) is not None or
+                    any(any(y == r_ for y in walk_expr(item)) for r_ in built))
                 rep.check(on_entry and is_msg, "R13.2", "R13.2|broadcast|to-each-entry", "the broadcast sends the subscription message to the entry the walk is at", b.loc(ev.bb))
                 # outcome decided Err?
                 res = None
